@@ -191,6 +191,19 @@ func GenPool(s sim.Source, cfg PoolCfg) []*model.Pattern {
 	var out []*model.Pattern
 	seen := map[string]bool{}
 	tries := 0
+	if s.Intn("rootpattern", 5) == 0 {
+		// the root itself (the only path no trailing-slash rule applies to), alone or under a host
+		raws := []string{"/"}
+		if cfg.Hosts {
+			raws = append(raws, genHost(s, cfg.Odd)+"/")
+		}
+		for _, raw := range raws {
+			if p, err := model.Parse(raw); err == nil && !seen[raw] {
+				seen[raw] = true
+				out = append(out, p)
+			}
+		}
+	}
 	for len(out) < cfg.Size && tries < cfg.Size*6 {
 		tries++
 		var raw string
@@ -279,6 +292,13 @@ func Instantiate(s sim.Source, p *model.Pattern) (host, path string) {
 		case model.TStatic:
 			sb.WriteByte(t.B)
 		case model.TParam:
+			if s.Intn("longval", 24) == 0 {
+				// a parameter stands for text of any length: longer than the 63/255 bytes that bound registered host
+				// labels and names, and than any buffer sized from the registered patterns
+				v := sim.Pick(s, "val", values)
+				sb.WriteString(strings.Repeat(v, (200+s.Intn("longlen", 120))/len(v)+1))
+				break
+			}
 			sb.WriteString(sim.Pick(s, "val", values))
 		case model.TCatch:
 			n := 1 + s.Intn("csegs", 3)
